@@ -43,7 +43,7 @@ def ivals(rng, n, cnt):
     v += [value(rng, n) for _ in range(cnt)]
     return v
 
-HEAVY = ('c01.leak.mul_mod ', 'c01.leak.monty_params', 'c01.leak.multi_exp', 'c01.leak.inv_odd_mod', 'c01.leak.gcd', 'c01.leak.inv_mod2k', 'c01.leak.monty', 'c01.leak.boxed_inv_mod2k', 'c01.hook.divsteps', 'c01.leak.sqrt')
+HEAVY = ('c01.leak.inv_mod ', 'c01.leak.mul_mod ', 'c01.hook.monty_params', 'c01.leak.multi_exp', 'c01.leak.inv_odd_mod', 'c01.leak.gcd', 'c01.leak.inv_mod2k', 'c01.leak.monty', 'c01.leak.boxed_inv_mod2k', 'c01.hook.divsteps', 'c01.leak.sqrt')
 
 def gen(tier, rng):
     """the lines of `gen_all`, with the ops whose leak model is slow (long traces) spread evenly over the stream, so that
@@ -133,9 +133,11 @@ def gen_all(tier, rng):
             if rng.randrange(3) == 0:
                 d |= 1 << (64 * dl - 1)
             yield f"c01.leak.div_rem {n} {hx(a)} {hx(d)}"
+            yield f"c01.leak.div_rem_vartime {n} {hx(a)} {hx(d)}"
             k = rng.randrange(0, (m - 1) // d + 1)
             for t in (k * d, max(0, k * d - 1), min(m - 1, k * d + d - 1)):
                 yield f"c01.leak.div_rem {n} {hx(t)} {hx(d)}"
+                yield f"c01.leak.div_rem_vartime {n} {hx(t)} {hx(d)}"
     # mixed-width multiplication (schoolbook with different operand sizes), Karatsuba sizes 64 (mul) and 64/128 (square)
     for n, k in [(1, 2), (2, 1), (3, 5), (4, 2), (16, 8), (8, 16), (16, 32), (17, 17)]:
         for _ in range(4 if q else 20):
@@ -293,6 +295,13 @@ def gen_safegcd(tier, rng):
             if mod < 3: mod = 3
             v = rng.choice([0, 1, mod - 1 if mod > 1 else 0, value(rng, n) % mod, mod // 2, 2, value(rng, n)])
             yield f"c01.leak.inv_odd_mod {n} {hx(mod)} {hx(v)}"
+            if n <= (3 if q else 4):
+                # any modulus: odd part times a power of two (k = 0, 1, 63, 64, ... BITS-1), zero, one
+                k = rng.choice([0, 1, 2, 63, 64, 65, 64 * n - 1])
+                k = min(k, 64 * n - 1)
+                me = rng.choice([(mod << k) % m, 1 << k, mod, 0, 1, 2, (value(rng, n) | 1) << k & (m - 1)])
+                if me == 1: me = 3      # modulus 1: every value is an inverse (the crate answers 1, the canonical residue is 0)
+                yield f"c01.leak.inv_mod {n} {hx(me)} {hx(rng.choice([v, v | 1, value(rng, n)]))}"
             a, b = pair(rng, n)
             yield f"c01.leak.gcd {n} {hx(a)} {hx(b)}"
             sh = rng.randrange(0, 64 * n)
@@ -325,7 +334,7 @@ def gen_modular(tier, rng):
             a, b = below(rng, n, p), below(rng, n, p)
             yield f"c01.leak.mul_mod {n} {hx(a)} {hx(b)} {hx(p)}"
             yield f"c01.hook.div_by_2 {n} {hx(a)} {hx(p)}"
-            yield f"c01.leak.monty_params {n} {hx(p)}"
+            yield f"c01.hook.monty_params {n} {hx(p)}"
             # vartime / trait form: any non-zero modulus of every limb length, unreduced factors
             pv = rng.choice([p, 1, 2, m - 1, m >> 1, value(rng, rng.randrange(1, n + 1)) or 1, 1 << rng.randrange(64 * n), WMAX, 1 << 64 if n > 1 else 5])
             yield f"c01.leak.mul_mod_vartime {n} {hx(value(rng, n))} {hx(value(rng, n))} {hx(pv)}"
